@@ -443,8 +443,11 @@ func e1Units(scs []engine.Scenario) []engine.Unit {
 func init() {
 	engine.Register(&engine.Property{
 		ID: "C01", Level: "model_checking",
-		Rule:  "E1: breadth-first search over real HTTP requests pushed through the composed application (states = canonicalised database + per-browser jars + oracle memory); every transition that changes a session's user must be justified by ground truth; classes = distinct justification kinds and rejected-attempt kinds hit",
-		Units: func(tier string) []engine.Unit { return e1Units(c01Scenarios(tier)) },
+		Rule: "E1: breadth-first search over real HTTP requests pushed through the composed application (states = canonicalised database + per-browser jars + oracle memory); every transition that changes a session's user must be justified by ground truth; classes = distinct justification kinds and rejected-attempt kinds hit",
+		Units: func(tier string) []engine.Unit {
+			scs := c01Scenarios(tier)
+			return e1Units(append(scs, configVariants(scs, tier, "nil-state", "err500", "nomount")...))
+		},
 		Assumptions: []string{
 			"storer with database semantics, client-state stores with documented event semantics, deterministic crypto/rand, virtual clock (harness, DESIGN.md 2)",
 			"bounded: 2-3 accounts, 2 browsers, request alphabets listed in props/c01.go, depth per tier",
